@@ -19,7 +19,7 @@ PROPS = {
         "assumptions": E1_ASSUME,
         "steps": 40,
         "quick": {"checks": 12000, "shards": 16},
-        "thorough": {"checks": 250000, "shards": 16},
+        "thorough": {"checks": 150000, "shards": 16},
     },
     "C02": {
         "engine": "E1 bufmachine",
@@ -33,7 +33,7 @@ PROPS = {
         "assumptions": E1_ASSUME,
         "steps": 40,
         "quick": {"checks": 12000, "shards": 16},
-        "thorough": {"checks": 250000, "shards": 16},
+        "thorough": {"checks": 150000, "shards": 16},
     },
     "C16": {
         "engine": "E1 bufmachine",
@@ -60,7 +60,7 @@ PROPS = {
         "assumptions": E1_ASSUME,
         "steps": 40,
         "quick": {"checks": 12000, "shards": 16},
-        "thorough": {"checks": 250000, "shards": 16},
+        "thorough": {"checks": 150000, "shards": 16},
     },
 }
 
